@@ -245,7 +245,7 @@ func producerFor(p Label, r *rand.Rand) Label {
 		if p.Sub == "" {
 			cands = append(cands, Label{Name: pick(r, []string{"a", "b", "c"}), Type: p.Type},
 				Label{Name: pick(r, []string{"a", "b"}), Type: p.Type, Sub: "x"}, // M5
-				Label{Type: p.Type, Sub: "y"}) // M6 one empty
+				Label{Type: p.Type, Sub: "y"})                                    // M6 one empty
 		} else {
 			cands = append(cands, Label{Name: pick(r, []string{"a", "b", "c"}), Type: p.Type, Sub: p.Sub}, // M5
 				Label{Type: p.Type}) // M6 one empty
